@@ -46,6 +46,14 @@ var propDefs = map[string]*PropDef{
 			"strings.Repeat/Fields/Split/TrimSpace behave as documented",
 		},
 	},
+	"C19": {
+		ID: "C19", Kinds: []string{"callers"}, Funcs: "all", Floor: 30,
+		Unmech: []string{
+			"v|f1:a1|f2:a2 == f2(f1(v,a1),a2): the chain is built by appending in parse order (proved at the append) and applied by a range loop in index order, each filter on the previous result with its parameter evaluated in the same context (proved at the calls); the fold over chain length is on paper",
+			"'binds tighter than any operator': parseFactor is the only caller of the filter-chain parser (proved) and parseFactor is the innermost level of the expression grammar (C07)",
+		},
+		Assume: []string{"ReplaceFilter is not called between compiling and executing a template (a compiled filterCall keeps the function it was bound to)"},
+	},
 	"C20": {
 		ID: "C20", Kinds: []string{"lock", "guard"}, Funcs: "all", Floor: 20,
 		Unmech: []string{
